@@ -17,6 +17,7 @@ import BufrModel.Drv.CacheOp
 import BufrModel.Drv.CompilerOp
 import BufrModel.Drv.TableDefOp
 import BufrModel.Drv.FlatOp
+import BufrModel.Drv.CanonOp
 import BufrModel.Drv.LinksOp
 import BufrModel.Drv.ViewOp
 import BufrModel.Drv.StreamOp
@@ -65,6 +66,7 @@ def statefulOps : List (String × (DrvState → Json → J (DrvState × Json))) 
   ("build-src", TD.opBuildSrc) ::
   ("tabledef-stream", TD.opTableDefStream) ::
   ("dec-data-flat", opDecDataFlat) ::
+  ("canon-bits", opCanonBits) ::
   ("col-parse", opColParse) ::
   ("wf-bitmap", opWfBitmap) ::
   ("wire", opWire) ::
